@@ -112,13 +112,15 @@ theorem C03_leak_breaks (S : State) (p : Program) (reprs : List Name) (rows labe
 
 /-- **C03 (collection).** In a collection, the record of a program is a function of the program itself
 (path, stored source, the labels its own text gets — `C03_history`) and of *which of the module names
-its import labels mention are collected*: two collections that agree on that give it the same record. -/
+its import labels mention are collected* (as paths: `M` ↦ `M` with `/` for `.`, plus `.py`): two
+collections that agree on that give it the same record. -/
 theorem C03_collection {toTaxa : Name → List Label → List Taxon} {progs progs' : List Prog} {db db' : Db}
     (h : makeDb toTaxa progs = .ok db) (h' : makeDb toTaxa progs' = .ok db')
     (hn : (pathsOf progs).Nodup) (hn' : (pathsOf progs').Nodup) {p : Prog} (hp : p ∈ progs)
     (hp' : p ∈ progs')
     (hsame : ∀ l ∈ p.labels, ∀ m, searchImport? l.name = some m →
-      (m ++ sPy ∈ internalOf progs ↔ m ++ sPy ∈ internalOf progs')) :
+      (replaceChar cDot cSlash m ++ sPy ∈ internalOf progs ↔
+        replaceChar cDot cSlash m ++ sPy ∈ internalOf progs')) :
     get? db.programs p.path = get? db'.programs p.path := by
   obtain ⟨hprog, -⟩ := C11.C11_records h hn
   obtain ⟨hprog', -⟩ := C11.C11_records h' hn'
@@ -144,7 +146,7 @@ theorem C03_collection {toTaxa : Name → List Label → List Taxon} {progs prog
       | some m =>
         simp only
         have := hsame l hl m hs
-        by_cases hm : m ++ sPy ∈ internalOf progs
+        by_cases hm : replaceChar cDot cSlash m ++ sPy ∈ internalOf progs
         · rw [if_pos hm, if_pos (this.mp hm)]
         · rw [if_neg hm, if_neg (fun h'' => hm (this.mpr h''))]
     rw [this]
